@@ -282,7 +282,9 @@ class CommandManager(object):
                     # see a stale flag once every interface has continued
                     self.paused = bool(self.pause)
                     self.plock.notify_all()
-                self.qlock.wait()
+                # a command may have been queued since the queue was run
+                if not self.queue:
+                    self.qlock.wait()
                 self.run_queued_commands()
 
     def sync_commands(self):
@@ -451,6 +453,8 @@ class CommandManager(object):
                     self.queue_lock_map[lock_id] = lock
                     self.queue_dict[lock_id] = (meth, args, kwargs)
                     self.queue.append(lock_id)
+                    # wake a solver that is paused in wait_for_cmd
+                    self.qlock.notify_all()
                 logger.debug('controller: dispatch(%d): %s %s %s'%(
                             lock_id, meth, args, kwargs))
                 return str(lock_id)
